@@ -95,7 +95,7 @@ def judge(cv, aspects):
     """returns list of (aspect, detail) where impl disagrees with the CPU on defined state; None if not comparable"""
     try:
         return _judge(cv, aspects)
-    except (ValueError, IndexError):
+    except (ValueError, IndexError, TypeError, KeyError):
         # a malformed line from the CPU oracle (it died inside this case): not comparable
         return None
 
